@@ -15,16 +15,26 @@ class PropSpec:
         self.extra = extra
 
     def units(self):
-        return ([('contract', n) for n in self.contracts] + [('contract', n) for n in self.lemmas]
-                + [('ground', n) for n in self.ground])
+        out = []
+        for n in self.contracts + self.lemmas:
+            out.append(('contract', n[0] if isinstance(n, tuple) else n))
+        return out + [('ground', n) for n in self.ground]
+
+    def case_filter(self, name):
+        """Only these clauses of a shared contract belong to this property (None = all)."""
+        for n in self.contracts:
+            if isinstance(n, tuple) and n[0] == name:
+                return set(n[1])
+        return None
 
 
 def build_registry():
     reg = Registry()
-    from contracts import encode_c
+    from contracts import encode_c, frame_c
     encode_c.register(reg)
     for c in encode_c.lemmas():
         reg.add(c)
+    frame_c.register(reg)
     return reg
 
 
@@ -71,7 +81,36 @@ def _c11_default(reg, opts):
             gres('pamqp.encode.DEPRECATED_RABBITMQ_SUPPORT#initially-False', encode.DEPRECATED_RABBITMQ_SUPPORT is False)]
 
 
+FRM = 'pamqp.frame.'
+FRAME_ENV = [FRM + n for n in ('frame_parts', '_marshal', '_marshal_content_body_frame', '_unmarshal_body_frame',
+                               '_unmarshal_protocol_header_frame', 'marshal')] + \
+    ['pamqp.header.ProtocolHeader.' + n for n in ('__init__', 'marshal', 'unmarshal')] + \
+    ['pamqp.body.ContentBody.' + n for n in ('__init__', '__len__', 'marshal', 'unmarshal')] + \
+    ['pamqp.heartbeat.Heartbeat.marshal']
+L = 'contracts.lemmas.'
+# clauses of frame.unmarshal's total contract, by the property that states them
+UNMARSHAL_RETURNS = {'protocol-header', 'heartbeat', 'body', 'method', 'content-header'}
+UNMARSHAL_INCOMPLETE = {'protocol-header-truncated', 'shorter-than-a-frame-header', 'heartbeat-incomplete-or-bad-end',
+                        'incomplete'}
+UNMARSHAL_RAISES = UNMARSHAL_INCOMPLETE | {'zero-size', 'bad-frame-end', 'unknown-type'}
+
+@ground('C18.heartbeat-constant')
+def _c18_hb(reg, opts):
+    from pamqp import heartbeat
+    from spec import wire
+    return [gres('heartbeat.Heartbeat.value#fixed-8-octet-frame', heartbeat.Heartbeat.value == wire.HEARTBEAT_FRAME,
+                 'value=%r' % (heartbeat.Heartbeat.value,), probe='pamqp.heartbeat.Heartbeat.value')]
+
+
 PROPS = {
+    'C06': PropSpec('C06', contracts=FRAME_ENV + [(FRM + 'unmarshal', UNMARSHAL_RETURNS | {'bad-frame-end', 'heartbeat-incomplete-or-bad-end'})], lemmas=[L + 'c06_trailing_bytes'], floor=200,
+                    assumptions=['method and content-header payload decoders enter through their total contracts '
+                                 '(any frame object of the right kind, or UnmarshalingException)']),
+    'C07': PropSpec('C07', contracts=FRAME_ENV + [(FRM + 'unmarshal', UNMARSHAL_INCOMPLETE)], lemmas=[L + 'c07_prefix'], floor=200),
+    'C18': PropSpec('C18', contracts=FRAME_ENV + [(FRM + 'unmarshal', {'protocol-header', 'heartbeat', 'body'})],
+                    lemmas=[L + 'c18_body_roundtrip', L + 'c18_body_len', L + 'c18_heartbeat', L + 'c18_protocol_header'],
+                    ground=['C18.heartbeat-constant'], floor=200),
+    'C20': PropSpec('C20', contracts=FRAME_ENV + [(FRM + 'unmarshal', {'body', 'method', 'content-header', 'heartbeat'})], lemmas=[L + 'c20_peek_then_read', L + 'c20_peek_low_level'], floor=200),
     'C14': PropSpec('C14', ground=['C14.catalogue', 'C14.properties'], floor=1200, exhaustive=True,
                     assumptions=['the specification table spec/tables.py is a hand transcription (trusted artefact)',
                                  'tools/codegen.py is not executed (needs network); the property is about the shipped module']),
